@@ -222,9 +222,26 @@ class Cbldm(FunctionContract):
     def shape_text(self, s):
         return f"n={s[0]} partition_difference={'default (unbounded)' if s[1] is None else s[1]}"
 
+    KNOWN_ATTRS = {"sum_delta", "numitems", "time_limit", "len_delta", "start_time", "best_partition_so_far", "is_optimal", "binner"}
+
+    @staticmethod
+    def havoc_hidden_counters(it, obj):
+        """the search object's documented fields are what __init__ gives them; any OTHER integer field (a node counter, a call counter, a cache size...)
+        is given an arbitrary non-negative value: the result must not depend on bookkeeping state (a search of a few items never reaches the
+        thousandth node, but an arbitrary counter value does)"""
+        if obj.cls.name != "CBLDM_algo":
+            return
+        for k, v in list(obj.attrs.items()):
+            if k not in Cbldm.KNOWN_ATTRS and isinstance(v, int) and not isinstance(v, bool):
+                t = L.fresh("hidden_" + k, L.IntS)
+                it.assume(t >= 0)
+                obj.attrs[k] = SV(t)
+                it.approximate = True       # the run starts from an arbitrary bookkeeping state: its result is not a prediction for a fresh run
+
     def make_args(self, it, shape):
         n, d = shape
         self._shape = shape
+        it.hooks["post_init"] = Cbldm.havoc_hidden_counters
         xs, vs = int_items(it, n)
         self._xs, self._vs = xs, vs
         cls = it.get_function("prtpy/binners.py::BinnerKeepingSums")      # cbldm must work whatever manager the caller has
